@@ -150,6 +150,7 @@ def _job(args, only=None):
     from pysph.base.particle_array import ParticleArray
     from pysph.sph.equation import Group
     from pysph.tools.sph_evaluator import SPHEvaluator
+    from pysph.base.nnps_base import set_number_of_threads
     kernel = getattr(K, kname)(dim=dim)
     names = ['a', 'b'] if two else ['a']
     props = all_props(names)
@@ -230,8 +231,18 @@ def _job(args, only=None):
             for nn_name in ((NNPS if (ncfg % 5 == 0 or thorough)
                              else NNPS[:1]) if only is None else [only[2]]):
                 if nn_name != 'LinkedListNNPS':
-                    nn = getattr(N, nn_name)(dim=dim, particles=arrs,
-                                             radius_scale=kernel.radius_scale)
+                    kw = {}
+                    if nn_name == 'OctreeNNPS':
+                        # small leaves and the multi-thread tree builder: a
+                        # deep tree even for four particles
+                        kw['leaf_max_particles'] = 2
+                        set_number_of_threads(2)
+                    try:
+                        nn = getattr(N, nn_name)(
+                            dim=dim, particles=arrs,
+                            radius_scale=kernel.radius_scale, **kw)
+                    finally:
+                        set_number_of_threads(1)
                     ev.func_eval.set_nnps(nn)
                     ev.nnps = nn
                 ev2.func_eval.set_nnps(ev.nnps)
